@@ -1,3 +1,12 @@
 ---------------------------- MODULE MC_Envelope ----------------------------
 EXTENDS Envelope
+\* the budget as a function of the raw length (internal/limits.StreamBudget:
+\* 8 MiB + min(1024 x raw length, 256 MiB)), in KB, at the lengths where its
+\* shape shows: it grows by 1 KB per raw byte up to 256 KiB and is flat beyond
+KiB == 1024
+ASSUME /\ StreamBudgetKB(0) = 8192 + 1
+       /\ StreamBudgetKB(1) = 8192 + 2
+       /\ StreamBudgetKB(256 * KiB - 1) = 8192 + 262144
+       /\ StreamBudgetKB(256 * KiB + 1) = 8192 + 262144
+       /\ \A n \in {300 * KiB, 1024 * KiB, 16 * 1024 * KiB, 1024 * 1024 * KiB} : StreamBudgetKB(n) = 8192 + 262144
 =============================================================================
